@@ -556,6 +556,8 @@ def run(repo, rep):
     tr.check_function(f)
     # the object wrapper named in the property's observe_at list hands its ellipsoid and projection on
     ThreadRule(repo, rep).check_function(repo.func('geodepy.coord', 'CoordTM.geo'), roles=('ellipsoid', 'prj'))
+    from . import c15
+    c15.delegation_rules(repo, rep, only=('CoordTM.geo',))
     rep.floor('R-TABLE', 17, '8 library rows, 8 stand-alone rows, stand-alone rectifying radius')
 
 
